@@ -294,6 +294,30 @@ theorem specRun_pair2 {lits n v} (hn : lits.contains n = false) (hv : lits.conta
     rw [specRun_cons_some (hone b nv hb)]
     simpa using key bs' nvs' htl [nv.1] [nv.2]
 
+theorem isList_of_properElems {d ks} (h : properElems d = some ks) : IsList d ks := by
+  rw [properElems_eq_spine] at h
+  unfold IsList
+  cases hd : d.spine.2 with
+  | some t => simp [hd] at h
+  | none =>
+    simp only [hd, Option.some.injEq] at h
+    rw [← h, ← hd]
+
+/-- `(v ...)` does not match a datum that is not a non-empty proper list -/
+theorem specMatch_var_ell_nonlist {lits v d} (hv : lits.contains v = false)
+    (hk : ∀ ks, IsList d ks → ks = []) : specMatch lits (pl [pv v, pe]) d = none := by
+  rw [specMatch_ofList (by simp only [Pat.ofList, Pat.ok, Pat.isEllTail, Pat.ellFree, Pat.isLit, hv]; rfl)]
+  cases hp : properElems d with
+  | none => rfl
+  | some ks =>
+    have := hk ks (isList_of_properElems hp)
+    subst this
+    simp [specMatchList_ell, specRun_var hv]
+
+/-- a non-empty list is not a symbol -/
+theorem isSym_of_isList {s d x xs} (h : IsList d (x :: xs)) : isSym s d = false := by
+  cases d <;> simp_all [IsList, Datum.spine, isSym]
+
 theorem IsPairs.nil_iff {bs nvs} (h : IsPairs bs nvs) : bs = [] ↔ nvs = [] := by
   cases h <;> simp
 
